@@ -277,12 +277,11 @@ fn has_counter<D: ReadDoc>(doc: &D, obj: &ObjId, p: &P) -> bool {
 }
 
 fn text_value(rng: &mut Rng) -> ScalarValue {
-    // no counters inside text (see the text-counter probe)
-    loop {
-        let v = gen::scalar(rng);
-        if !matches!(v, ScalarValue::Counter(_)) {
-            return v;
-        }
+    // any scalar, counters included (a text element can hold a counter and be incremented)
+    if rng.chance(1, 4) {
+        ScalarValue::counter(rng.below(9) as i64)
+    } else {
+        gen::scalar(rng)
     }
 }
 
@@ -461,6 +460,17 @@ fn gen_valid<D: ReadDoc>(doc: &D, rng: &mut Rng, objs: &[(ObjId, ObjType)], cfg:
             let pos = rng.below(len as u64 + 1) as usize;
             match rng.below(16) {
                 0 if len > 0 => Some(Cmd::Delete(obj, P::Seq(rng.below(len as u64) as usize))),
+                9 | 10 if len > 0 => {
+                    // a counter inside the text: increment it, or make one
+                    let mut i = 0usize;
+                    while i < len {
+                        if has_counter(doc, &obj, &P::Seq(i)) {
+                            return Some(Cmd::Inc(obj, P::Seq(i), rng.below(7) as i64 - 2));
+                        }
+                        i += 1;
+                    }
+                    Some(Cmd::Put(obj, P::Seq(rng.below(len as u64) as usize), ScalarValue::counter(rng.below(5) as i64)))
+                }
                 1 if len > 0 => {
                     // replaces one element by a value of any width (multi-character string, empty string, non-string)
                     let v = if rng.chance(2, 3) { ScalarValue::Str(small_str(rng).into()) } else { text_value(rng) };
@@ -754,6 +764,31 @@ fn run_calls<T: Transactable>(t: &mut T, rng: &mut Rng, rep: &mut Report, ctx: &
                     json!({"program": ctx.prog, "log": ctx.log.clone()}));
             }
             cands.push((id.clone(), ty));
+        }
+        // C24 / C03: after any successful call the length of every text equals the width of its string
+        if status == 0 {
+            let mut bad: Option<String> = None;
+            for (id, _) in cands.iter() {
+                if let Ok(ObjType::Text) = t.object_type(id) {
+                    let len = t.length(id);
+                    let txt = t.text(id).unwrap_or_default();
+                    let w = enc_width(ctx.enc, &txt);
+                    if len != w {
+                        bad = Some(format!("after {} on {:?}: text {:?} has length {} but text() = {:?} has width {} ({})", cmd.kind(), cmd.obj(), id, len, txt, w, enc_name(ctx.enc)));
+                        break;
+                    }
+                }
+            }
+            if let Some(what) = bad {
+                rep.count("length_vs_text_mismatch");
+                if ctx.enc == TextEncoding::GraphemeCluster {
+                    rep.fail(&["C24"], "edit|grapheme-length", &what, json!({"program": ctx.prog, "log": ctx.log.clone()}));
+                } else {
+                    rep.fail(&["C03", "C24"], &format!("edit|length-vs-text|{}", cmd.kind()), &what, json!({"program": ctx.prog, "log": ctx.log.clone()}));
+                }
+                out.aborted = true;
+                return out;
+            }
         }
         let after = match observe_all(t, cands, ctx.enc) {
             Ok(o) => o,
@@ -1334,6 +1369,33 @@ fn probes(rep: &mut Report) {
         Err(p) => rep.fail(&["C03"], "edit|text-counter-increment", &format!("text \"abc\"; put(t,1,counter(1)); increment(t,1,2); increment(t,1,2); get(t,1) panics: {} at {}", p.message, p.location), json!({"probe": "text counter"})),
     }
     rep.count("probe:text-counter");
+    // a text element holding [counter (lower id), string (higher id)] from two replicas, incremented
+    let r = guard(|| {
+        let mut base = AutoCommit::new().with_actor(ActorId::from(vec![5u8]));
+        let t = base.put_object(ROOT, "t", ObjType::Text).unwrap();
+        base.splice_text(&t, 0, 0, "xz").unwrap();
+        base.commit();
+        let mut r0 = base.fork().with_actor(ActorId::from(vec![9u8]));
+        let mut r1 = base.fork().with_actor(ActorId::from(vec![1u8]));
+        r0.put(&t, 0, "y").unwrap();
+        r0.commit();
+        r1.put(&t, 0, ScalarValue::counter(1)).unwrap();
+        r1.commit();
+        r0.merge(&mut r1).unwrap();
+        r0.increment(&t, 0, 2).unwrap();
+        (r0.length(&t), r0.text(&t).unwrap())
+    });
+    match r {
+        Ok((len, text)) => {
+            if len != text.chars().count() {
+                rep.fail(&["C03", "C24"], "edit|length-vs-text|increment",
+                    &format!("text \"xz\"; replica 09: put(t,0,\"y\"); replica 01: put(t,0,counter(1)); merge; increment(t,0,2): length {} but text() = {:?} (the incremented counter is not indexed until the document is reloaded)", len, text),
+                    json!({"probe": "text conflict increment"}));
+            }
+        }
+        Err(p) => rep.fail(&["C03"], &format!("panic|edit|increment|{}", p.signature()), &p.message, json!({"probe": "text conflict increment"})),
+    }
+    rep.count("probe:text-conflict-increment");
 }
 
 pub fn run(rng: &mut Rng, tier: &str, out: &str) -> Report {
